@@ -272,7 +272,13 @@ func (s *InMemoryStore) UpdateOffsets(ctx context.Context, topic string, partiti
 	}
 	s.mu.Lock()
 	defer s.mu.Unlock()
-	s.offsets[partitionKey(topic, partition)] = lastOffset + 1
+	// The end offset only moves forward: flush callbacks may land out of
+	// order, and a late, lower value must not overwrite a higher one.
+	key := partitionKey(topic, partition)
+	if current, ok := s.offsets[key]; ok && current >= lastOffset+1 {
+		return nil
+	}
+	s.offsets[key] = lastOffset + 1
 	return nil
 }
 
